@@ -2,7 +2,8 @@
 Stages: regenerate Extracted.v from packfile.rs/packer.rs; build + audit the Coq theorems;
 correspondence of the extracted model with the real code on (a) the header codec, (b)
 PackHeader::from_file on generated packs (well-formed and damaged, every kind of size hint),
-(c) the BasicPacker state machine; (d) end to end: real backups/prune/copy on the in-memory
+(c) the BasicPacker state machine; (e) the repacker: hooked CopyPackBlobs/BlobLocations coalescing and
+real BlobCopier runs (copy_fast / copy) against the extracted `repack`; (d) end to end: real backups/prune/copy on the in-memory
 backend, every pack parsed by the EXTRACTED from_file and compared with the index files,
 its name with SHA-256, its size with the listing; then index files are deleted,
 repair_index is run and check(read_data) + snapshot contents are compared.
@@ -148,6 +149,79 @@ def gen_packer(rng):
     return " ".join(toks)
 
 
+HOLE = 262144
+LIMIT = 41943040
+
+
+def gen_layout(rng, big):
+    """blobs of one pack: increasing offsets with boundary-seeking holes and lengths"""
+    n = rng.choice([1, 2, 3, 4, 6, 9])
+    off = rng.choice([0, 0, 5, rng.randint(0, 1000)]) if not big else rng.choice([0, U32 - HOLE - 50, U32 - 300, 1 << 31])
+    out = []
+    for _ in range(n):
+        r = rng.random()
+        if big and r < 0.3: ln = rng.choice([LIMIT, LIMIT - 1, LIMIT + 1, LIMIT - 7, LIMIT // 2, 100, U32 - 1])
+        else: ln = rng.choice([0, 1, 2, 16, 33, rng.randint(0, 120)])
+        ul = -1 if rng.random() < 0.6 else rng.choice([1, 7, 70000])
+        out.append((off % U32, ln % U32, ul))
+        r = rng.random()
+        gap = 0 if r < 0.5 else rng.choice([1, 2, 17]) if r < 0.7 else rng.choice([HOLE - 1, HOLE, HOLE + 1]) if (big or r < 0.75) else rng.randint(0, 40)
+        off = off + ln + gap
+    return out
+
+
+def gen_centries(rng, big=False, npacks=None, distinct=False):
+    npacks = npacks or rng.choice([1, 1, 2, 3])
+    # pack ids sharing long prefixes so that the derived order is exercised beyond the first byte
+    base = "%062x" % rng.getrandbits(248)
+    packs = list(dict.fromkeys([base + "%02x" % rng.randint(0, 255) for _ in range(npacks)] if rng.random() < 0.5 else ["%064x" % rng.getrandbits(256) for _ in range(npacks)]))
+    es = []
+    for p in packs:
+        for (o, l, u) in gen_layout(rng, big):
+            if rng.random() < 0.85: es.append((p, o, l, u, "%064x" % rng.getrandbits(256)))
+    if distinct:
+        seen, es2 = set(), []
+        for e in es:
+            if (e[0], e[1]) not in seen: seen.add((e[0], e[1])); es2.append(e)
+        es = es2
+    return packs, es
+
+
+def sort_ce(es):
+    return sorted(es, key=lambda e: (bytes.fromhex(e[0]), e[1]))    # stable
+
+
+def ce_toks(es):
+    t = [str(len(es))]
+    for (p, o, l, u, i) in es: t += [p, str(o), str(l), str(u), i]
+    return " ".join(t)
+
+
+def parse_chunks(s):
+    """'k C pack off len n id:off:len:ulen ...' -> list of (pack, off, len, [(id, off, len, ulen)])"""
+    t = s.split()
+    if not t or not t[0].isdigit(): return None
+    i, res = 1, []
+    for _ in range(int(t[0])):
+        pack, off, ln, n = t[i + 1], int(t[i + 2]), int(t[i + 3]), int(t[i + 4]); i += 5
+        bl = []
+        for x in t[i:i + n]:
+            a, o, l, u = x.split(":"); bl.append((a, int(o), int(l), -1 if u == "-" else int(u)))
+        i += n
+        res.append((pack, off, ln, bl))
+    return res
+
+
+def chunks_oracle(es, chunks):
+    """the property on the implementation's chunks: in input order, one pack per chunk, every blob inside the read"""
+    flat = [(c[0], b) for c in chunks for b in c[3]]
+    if [(p, (i, o, l, u)) for (p, o, l, u, i) in es] != flat: return "chunks are not the input blobs in order with their own pack"
+    for (pack, off, ln, bl) in chunks:
+        for (i, o, l, u) in bl:
+            if o < off or o + l > off + ln: return "a blob lies outside the coalesced read"
+    return None
+
+
 def parse_blobs(s):
     """'n id:tpe:off:len:ulen ...' -> list of tuples, or None"""
     t = s.split()
@@ -182,7 +256,9 @@ def run(ctx):
         "checked u32 arithmetic = build with overflow checks (the harness and `cargo test` profile); a release build wraps instead of panicking",
         "ids are 32 bytes; IndexBlob.uncompressed_length is NonZeroU32 (never Some 0)",
         "SHA-256 naming of packs and the writer thread (Actor) are observed end to end, not modelled",
-        "delete-marks (packs_to_delete) and pack times are not recoverable from packs and are outside rebuild_index_equals_index"]
+        "delete-marks (packs_to_delete) and pack times are not recoverable from packs and are outside rebuild_index_equals_index",
+        "written_repo_index_rebuildable assumes that the hash (SHA-256) does not collide on the written pack files",
+        "the repacker theorems hold for every order of the blob list; sort_unstable and the parallel iteration over chunks are exercised by the correspondence only"]
     try:
         model = vlib.build_model("C08")
     except RuntimeError as e:
@@ -217,7 +293,7 @@ def run(ctx):
             if a[0].partition(" | ")[0] != b[0].partition(" d=")[0]:
                 ctx.violation("replayed case still disagrees", w, no_input=True)
             return vlib.finish_broken_obligations(ctx)
-        if "mode" in w and "case" in w and w["mode"] in ("codec", "frombin", "packer"):
+        if "mode" in w and "case" in w and w["mode"] in ("codec", "frombin", "packer", "coalloc"):
             a = run_lines(impl, [w["case"]], w["mode"])
             b = run_lines(model, [w["case"]], w["mode"]) if model else ["-"]
             print("replay %s: impl=%s\n model=%s" % (w["mode"], a[0], b[0]))
@@ -335,6 +411,10 @@ def run(ctx):
             if v.strip() != "1": viol.append(("packer emitted a pack whose index entry does not describe the file", "packer", pk[k], a[k]))
         cov["packer_oracle_evaluations"] = len(d)
 
+    # ---- (e) repacker: coalescing and slicing
+    rp = run_repack(ctx, impl, model, bump, viol, mism, nontriv, samples) if model else {}
+    nev += rp.get("evaluations", 0)
+
     # ---- (d) end to end
     e2e = run_e2e(ctx, impl, model, bump, viol, mism, nontriv, samples) if model else {}
     # A violation seen in an end-to-end scenario must recur when the scenario is run alone: under
@@ -360,6 +440,7 @@ def run(ctx):
                 "traces_validated_against_impl": nev, "disagreements_checked": len(mism) + len(viol),
                 "model_impl_mismatches": len(mism), "oracle_violations": len(viol)})
     cov.update({k: v for k, v in e2e.items() if k != "evaluations"})
+    cov.update({k: v for k, v in rp.items() if k != "evaluations"})
     for what, mode, case, got in viol[:40]:
         ctx.violation(what, {"mode": mode, "case": case if len(case) < 20000 else case[:20000] + "...", "impl": got[:4000],
                              "how_to_replay": "echo '<case>' | <harness>/c08 - <mode>   (formats: harness/src/bin/c08.rs)"},
@@ -369,6 +450,114 @@ def run(ctx):
         ctx.violation("correspondence broken: extracted model disagrees with the implementation in mode %s (%d cases) although every oracle holds" % (m0[0], len(mism)),
                       {"mode": m0[0], "case": m0[1][:20000], "impl": m0[2][:3000], "model": m0[3][:3000]}, no_input=True)
     vlib.finish_broken_obligations(ctx)
+
+
+def run_repack(ctx, impl, model, bump, viol, mism, nontriv, samples):
+    rng = ctx.rng
+    T = ctx.thorough()
+    ev = 0
+    # coalesce (copy_blobs path) and coalloc (prune path)
+    lines, model_lines, metas = [], [], []
+    for _ in range(4000 if T else 600):
+        big = rng.random() < 0.3
+        r = rng.random()
+        if r < 0.6:
+            _, es = gen_centries(rng, big); es = sort_ce(es); lines.append("0 " + ce_toks(es)); model_lines.append(lines[-1])
+        elif r < 0.8:
+            _, es = gen_centries(rng, big, distinct=True); sh = es[:]; rng.shuffle(sh); es = sort_ce(es)
+            lines.append("1 " + ce_toks(sh)); model_lines.append("1 " + ce_toks(es))
+        else:
+            _, es = gen_centries(rng, big); rng.shuffle(es); lines.append("0 " + ce_toks(es)); model_lines.append(lines[-1])
+        metas.append(es)
+    a = run_lines(impl, lines, "coalesce")
+    b = run_lines(model, model_lines, "coalesce")
+    ev += len(lines)
+    for l, x, y, es in zip(lines, a, b, metas):
+        if x != y: mism.append(("coalesce", l, x, y))
+        ch = parse_chunks(x)
+        bump("coalesce_" + ("panic" if ch is None else "merged" if len(ch) < len(es) else "nomerge"))
+        if ch is not None:
+            if len(ch) >= 2 and len(ch) < len(es): nontriv.add("co " + l)
+            bad = chunks_oracle(es, ch)
+            if bad: viol.append(("coalescing of reads for copy: " + bad, "coalesce", l, x))
+    lines = []
+    for _ in range(1500 if T else 250):
+        _, es = gen_centries(rng, rng.random() < 0.3, npacks=1)
+        if rng.random() < 0.85: es = sort_ce(es)
+        else: rng.shuffle(es)
+        lines.append(ce_toks(es))
+    a = run_lines(impl, lines, "coalloc")
+    b = run_lines(model, lines, "coalloc")
+    ev += len(lines)
+    for l, x, y in zip(lines, a, b):
+        if x != y: mism.append(("coalloc", l, x, y))
+    # real BlobCopier runs
+    nrun = 600 if T else 90
+    specs = []
+    for _ in range(nrun):
+        fast = rng.random() < 0.6
+        npk = rng.choice([1, 2, 2, 3])
+        packs, plain, ents = {}, {}, []
+        pids = sorted(set("%064x" % rng.getrandbits(256) for _ in range(npk)))
+        specs.append({"fast": fast, "pids": pids, "blobs": {p: [bytes(rng.getrandbits(8) for _ in range(rng.choice([0, 1, 5, 20, rng.randint(0, 60)]) if fast else rng.randint(1, 40))) for _ in range(rng.choice([1, 2, 3, 5]))] for p in pids},
+                      "gaps": {p: [rng.choice([0, 0, 0, 1, 3, 17]) for _ in range(6)] for p in pids}})
+    # ciphertexts for the `copy` runs come from the implementation's key
+    enc_lines = [" ".join([str(len(bl))] + [hx(b) for b in bl]) for sp in specs if not sp["fast"] for p in sp["pids"] for bl in [sp["blobs"][p]]]
+    enc_out = run_lines(impl, enc_lines, "encblobs") if enc_lines else []
+    k = 0
+    lines, mlines, metas = [], [], []
+    for sp in specs:
+        store, ents, table = {}, [], []
+        for p in sp["pids"]:
+            bl = sp["blobs"][p]
+            if sp["fast"]: cts = bl
+            else:
+                cts = [bytes.fromhex(h) if h != "-" else b"" for h in enc_out[k].split()]; k += 1
+            data, off = b"", 0
+            for j, (c, pl) in enumerate(zip(cts, bl)):
+                g = sp["gaps"][p][j % 6]
+                data += bytes(rng.getrandbits(8) for _ in range(g)); off += g
+                if rng.random() < 0.9: ents.append((p, off, len(c), -1, "%064x" % rng.getrandbits(256), pl))
+                table.append((hx(c), hx(pl)))
+                data += c; off += len(c)
+            store[p] = data
+        r = rng.random()
+        if sp["fast"] and r < 0.12 and ents:      # a range outside its pack -> error, nothing may be mis-copied
+            i = rng.randrange(len(ents)); e = ents[i]; ents[i] = (e[0], e[1], e[2] + rng.choice([1, 500]), e[3], e[4], e[5])
+        keys = set()
+        ents = [e for e in ents if not ((e[0], e[1]) in keys or keys.add((e[0], e[1])))]
+        srt = sort_ce(ents)
+        mode = rng.random()
+        given, sortflag = (srt, 0) if mode < 0.5 else (rng.sample(ents, len(ents)), 1) if mode < 0.8 else (rng.sample(ents, len(ents)), 0)
+        final = srt if sortflag else given
+        tpe = rng.randint(0, 1)
+        body = "%d %s " % (len(store), " ".join("%s %s" % (p, hx(d)) for p, d in store.items()))
+        lines.append("%d %d %d %s" % (tpe, 1 if sp["fast"] else 0, sortflag, body) + ce_toks([e[:5] for e in given]))
+        mlines.append("%d %d 0 %s" % (tpe, 1 if sp["fast"] else 0, body) + ce_toks([e[:5] for e in final])
+                      + " %d %s" % (len(table), " ".join("%s %s" % t for t in table)))
+        metas.append((sp["fast"], final, store))
+    a = run_lines(impl, lines, "repackrun")
+    b = run_lines(model, mlines, "repack")
+    ev += len(lines)
+    for l, x, y, (fast, final, store) in zip(lines, a, b, metas):
+        xo, _, xc = x.partition(" | ")
+        yo, _, rest = y.partition(" | ")
+        yc, _, flags = rest.partition(" | ")
+        bump("repackrun_%s_%s" % ("fast" if fast else "copy", xo.split()[0]))
+        def strip_ulen(o): return " ".join(t.rsplit(":", 1)[0] if ":" in t else t for t in o.split())
+        if (xo if fast else strip_ulen(xo)) != (yo if fast else strip_ulen(yo)) or (xo.startswith("ok") and xc != yc): mism.append(("repackrun", l, x, y))
+        if xo.startswith("ok"):
+            if len(final) >= 2: nontriv.add("rp " + l)
+            got = [(t.split(":")[0], t.split(":")[1]) for t in xo.split()[2:]]
+            exp = [(e[4], hx(store[e[0]][e[1]:e[1] + e[2]]) if fast else hx(e[5])) for e in final]
+            if got != exp:
+                viol.append(("repacked blobs do not have the bytes of their source locations (%s)" % ("copy_fast" if fast else "copy"), "repackrun", l, x))
+            ch = parse_chunks(xc)
+            bad = chunks_oracle([e[:5] for e in final], ch) if ch is not None else "chunks unreadable"
+            if bad: viol.append(("coalescing of reads for copy: " + bad, "repackrun", l, x))
+            if flags.strip() and "exp=1" not in flags: mism.append(("repack-spec", l, x, y))
+    return {"evaluations": ev, "repack_coalesce_cases": (4000 if T else 600) + (1500 if T else 250), "repack_blobcopier_runs": nrun,
+            "repack_rule": "coalesce: 1..3 packs (ids sharing 31-byte prefixes half of the time) x blob layouts with holes 0/1/MAX_HOLESIZE-1/MAX_HOLESIZE/MAX_HOLESIZE+1, lengths around LIMIT_PACK_READ and offsets near 2^32, given sorted, shuffled+sort_unstable, or shuffled; real BlobCopier runs (copy_fast on arbitrary bytes, copy on blobs encrypted with the source key) over 1..3 source packs with gaps, new pack parsed back and compared with the source ranges"}
 
 
 def classify(what, mode, case, got):
@@ -455,17 +644,25 @@ def run_e2e(ctx, impl, model, bump, viol, mism, nontriv, samples, only=None):
                 pid, hint, res = rest.split(" ", 2)
                 d["implff"].append((pid, int(hint), res))
             elif kind == "index":
-                ixid, dele, pid, size, blobs = rest.split(" ", 4)
+                ixid, dele, pid, size, tflag, blobs = rest.split(" ", 5)
                 d["index"].append((ixid, int(dele), pid, size, blobs))
+                d.setdefault("timed", []).append(int(tflag))
             elif kind == "snap":
                 sid, nf, dg = rest.split(" ")
                 d["snaps"][sid] = (nf, dg)
             elif kind == "check": d["check"] = rest
             elif kind == "note": d["note"] = rest
         digests = {}
+        repaired = False
         for tag in order:
             d = dumps[tag]
             if tag.endswith("pre"): continue
+            if tag.lstrip("0123456789").startswith("R"): repaired = True
+            # the writer stamps every IndexPack it hands to the indexer (re-read headers of repair-index carry no time)
+            tm = d.get("timed", [])
+            bump("e2e_index_entries_with_time", sum(tm)); bump("e2e_index_entries_without_time", len(tm) - sum(tm))
+            if not repaired and tag[-1] != "C" and 0 in tm:
+                viol.append(("an index entry written by the packer's file writer has no time (step %s)" % tag, "e2e", case, tag))
             iscopy = tag[-1] == "C"
             ndumps += 1
             if len(d["packs"]) >= 2: nontriv.add(case + "#" + tag)
